@@ -101,7 +101,7 @@ let () =
         let here = Printf.sprintf "op#%d (%d %d %d %d)" i t p ins del in
         let zarr = List.map z !arr in
         (* ---- coarse: the property, judged on the implementation's own outputs ---- *)
-        if !in_domain && ins > 1000000 && p >= 0 && del >= 0 && p + del <= List.length !arr then begin
+        if !in_domain && ins > 1000000 && ins <= maxu32 && t >= 0 && t < maxu32 && p >= 0 && del >= 0 && p + del <= List.length !arr then begin
           (* in range but too large to materialise as an array: only the fine correspondence is followed *)
           count "huge_insert"; in_domain := false
         end;
